@@ -195,8 +195,27 @@ def check(bdd, ext=None, U=None, den=None, exact_counts=True, semantic=True):
                 raise Violation('reference count below in-degree', node=u,
                                 stored=ref[u], indegree=indeg[u])
     out = dict(observable=True, nodes=len(succ))
+    # the computed table (ite cache): only stored nodes, only correct entries
+    tab = getattr(b, '_ite_table', None)
+    entries = []
+    if isinstance(tab, dict):
+        for key, w in tab.items():
+            if not (isinstance(key, tuple) and len(key) == 3 and isinstance(w, int) and
+                    all(isinstance(x, int) for x in key)):
+                entries = None      # another layout: not interpreted
+                break
+            for x in key + (w,):
+                if abs(x) not in succ:
+                    raise Violation('the computed table mentions a node that is not stored',
+                                    entry=[list(key), w], node=abs(x))
+            entries.append((key, w))
     if semantic and U is not None:
         d = den if den is not None else Den(b, U)
+        for (g_, u_, v_), w_ in entries or ():
+            mg, mu, mv, mw = d(g_), d(u_), d(v_), d(w_)
+            if mw != (mg & mu) | ((U.full ^ mg) & mv):
+                raise Violation('the computed table holds an entry whose value is not '
+                                'ite(g, u, v)', entry=[[g_, u_, v_], w_])
         seen = {}
         for u in succ:
             m = d(u)
